@@ -23,7 +23,7 @@ Not decided: the Merkle root computations themselves (C11/C12) and the byte valu
 import re
 
 from fvlib.core import (CFG, CallGraph, assignments, bool_switch_targets, call_blocks, calls, callee_matches,
-                        callee_name, bool_consumers, dbg_name, describe, guards, short)
+                        callee_name, bool_consumers, dbg_name, describe, describe_nf, guards, short)
 
 C = "fuel_tx::contract::Contract::"
 INP = "fuel_tx::transaction::types::input::Input::"
@@ -213,24 +213,19 @@ def run(F, rep, tier, allfacts):
     idc = [[describe(f, a, depth=24) for a in args] for i, c, args, *_ in calls(f) if callee_matches(c, r"^" + re.escape(C) + "id$")]
     rc = [[describe(f, a, depth=24) for a in args] for i, c, args, *_ in calls(f) if callee_matches(c, r"^" + re.escape(C) + "root_from_code$")]
     sc = [[describe(f, a, depth=24) for a in args] for i, c, args, *_ in calls(f) if callee_matches(c, r"^" + re.escape(C) + "initial_state_root$")]
-    rep.check(rc == [["call:branch(call:bytecode(arg:create))"]] and sc == [["call:iter(call:deref(call:storage_slots(arg:create)))"]] and len(idc) == 1 and idc[0][0] == "call:salt(arg:create)" and
-              idc[0][1] == "var:root" and idc[0][2] == "var:storage_root", "VM-agreement", "deploy_inner:fallback-formulas", where,
-              "fallback id must be Contract::id(create.salt(), root, storage_root) with root/storage_root from the same create; found id%s root%s state%s" % (idc, rc, sc))
-    # every definition of root / storage_root / id is the metadata field or the function
-    from fvlib.core import origins
-    for var, fld, fn in (("root", "contract_root", "root_from_code"), ("storage_root", "state_root", "initial_state_root"), ("id", "contract_id", "id")):
-        defs = set()
-        for i, j, p, rv, line in assignments(f):
-            if len(p) == 1 and dbg_name(f, p[0]) == var and rv[0] == "use":
-                defs.add(describe(f, rv[1], depth=8))
-        for i, c, args, dest, *_ in calls(f):
-            if dest and len(dest) == 1 and dbg_name(f, dest[0]) == var:
-                defs.add("call:" + callee_name(c).rsplit("::", 1)[-1])
-        ok = len(defs) == 2 and ("call:" + fn) in defs and any(d.endswith(".body." + fld) and "metadata" in d for d in defs)
-        rep.check(ok, "VM-agreement", "deploy_inner:%s∈{metadata.%s,%s()}" % (var, fld, fn), where, "definitions of `%s` in deploy_inner: %s" % (var, sorted(defs)))
+    idn = [[describe_nf(F, f, a, depth=30) for a in args] for i, c, args, *_ in calls(f) if callee_matches(c, r"^" + re.escape(C) + "id$")]
+    META = r"call:as_ref\(call:metadata\(arg:create\)\)@Some\.0\.body\."
+    ROOT = r"alt\(%scontract_root\|call:root_from_code\(call:branch\(call:bytecode\(arg:create\)\)\)\)" % META
+    STATE = r"alt\(%sstate_root\|call:initial_state_root\(call:iter\(call:deref\(call:storage_slots\(arg:create\)\)\)\)\)" % META
+    # name-free: the 2nd / 3rd argument of Contract::id is a variable defined as {metadata.contract_root | root_from_code(bytecode)} /
+    # {metadata.state_root | initial_state_root(storage_slots)} of the same `create`
+    rep.check(rc == [["call:branch(call:bytecode(arg:create))"]] and sc == [["call:iter(call:deref(call:storage_slots(arg:create)))"]] and len(idn) == 1 and idn[0][0] == "call:salt(arg:create)" and
+              re.match("^" + ROOT + "$", idn[0][1]) is not None and re.match("^" + STATE + "$", idn[0][2]) is not None, "VM-agreement", "deploy_inner:fallback-formulas", where,
+              "fallback id must be Contract::id(create.salt(), root, storage_root) with root/storage_root from the same create (metadata field or recomputed); found id%s root%s state%s" % (idn, rc, sc))
+    IDV = r"^alt\(%scontract_id\|call:id\(call:salt\(arg:create\),%s,%s\)\)$" % (META, ROOT, STATE)
     for cal in ("storage_contract_exists", "deploy_contract_with_id"):
-        a = [[describe(f, x, depth=8) for x in args] for i, c, args, *_ in calls(f) if callee_matches(c, r"InterpreterStorage::%s$" % cal)]
-        rep.check(len(a) == 1 and a[0][-1] == "var:id", "VM-agreement", "deploy_inner:%s(id)" % cal, where, "%s must receive the computed id; args %s" % (cal, a))
+        a = [[describe_nf(F, f, x, depth=34) for x in args] for i, c, args, *_ in calls(f) if callee_matches(c, r"InterpreterStorage::%s$" % cal)]
+        rep.check(len(a) == 1 and re.match(IDV, a[0][-1]) is not None, "VM-agreement", "deploy_inner:%s(id)" % cal, where, "%s must receive the computed id {metadata.contract_id | Contract::id(salt, root, state_root)}; args %s" % (cal, a))
     a = [[describe(f, x, depth=8) for x in args] for i, c, args, *_ in calls(f) if callee_matches(c, r"InterpreterStorage::deploy_contract_with_id$")]
     rep.check(len(a) == 1 and a[0][1] == "call:deref(call:storage_slots(arg:create))" and a[0][2] == "call:branch(call:bytecode(arg:create))", "VM-agreement", "deploy_inner:deploys-same-code-and-slots", where,
               "deploy_contract_with_id must receive create.storage_slots() and create.bytecode(); args %s" % a)
@@ -263,7 +258,9 @@ def run(F, rep, tier, allfacts):
             # fold closure: result && valid(owner, predicate) over every predicate input
             rep.check(ds[0].endswith(".0") and ds[1].endswith(".1)"), "VM-agreement", "owner-check@check_predicate_owners", "%s:%s" % (fn["file"], line), "args %s" % ds)
             continue
-        okargs = ds[0] in ("var:owner", "var:address") and ds[1] == "call:deref(var:predicate)"
+        dn_ = [describe_nf(F, fn, a_, depth=14) for a_ in fn["bbs"][i]["t"][2]]
+        # name-free: first argument carries the owner / recipient (or recovered address) of the input, second its predicate bytes
+        okargs = re.search(r"\.owner|\.recipient|address", dn_[0] + ds[0]) is not None and re.search(r"\.predicate\b", dn_[1]) is not None and ".predicate_data" not in dn_[1]
         err = False
         ERRS = ("InvalidOwner", "InputPredicateOwner")
 
